@@ -205,6 +205,15 @@ def _dump_status(logf):
     raise core.Inconclusive("hv_gen_emb --dump-status printed nothing")
 
 
+def _api_short(api):
+    """`<hydro_lang::live_collections::singleton::Singleton<T,L,B> as ...::ZipResult<..>>::make` -> without crate paths"""
+    if not api:
+        return "?"
+    api = api.replace("hydro_lang::live_collections::", "").replace("hydro_lang::", "")
+    api = re.sub(r"\b(?:stream|singleton|optional|keyed_stream|keyed_singleton)::(?=[A-Z])", "", api)
+    return api
+
+
 def _msg_class(msg):
     """stable class of a panic message: source file + first line (+ first DFIR `Error:` line for collected
     diagnostics), numbers blanked"""
@@ -342,7 +351,7 @@ def _c41_judge(descs, verdict, viols, counters, opcov, samples, distinct):
             elif cls == "construct_panic":
                 # the program type-checked, yet building its IR through the public API panicked
                 viols.append({"t": "violation", "prop": "C41",
-                              "sig": "C41|flow construction|panic|%s|%s" % (v.get("api") or "?", _msg_class(v["message"])),
+                              "sig": "C41|flow construction|panic|%s|%s" % (_api_short(v.get("api")), _msg_class(v["message"])),
                               "what": "building the IR of well-typed program %s%s panicked in %s (before generate_embedded): %s"
                                       % (d["name"], " [corpus: %s]" % d["probe"] if d.get("probe") else "",
                                          v.get("api") or "?", v["message"][:400]),
